@@ -250,6 +250,10 @@ func c20ValueTable() []jsCall {
 		{"({})", M(), nil}, {"({a:1})", M("a", 1), nil}, {"({a:{b:[1,{c:'x'}]}})", M("a", M("b", A(1, M("c", "x")))), nil}, {"({'':1})", M("", 1), nil}, {"({'a b':1})", M("a b", 1), nil},
 		{"({1:2})", M("1", 2), nil}, {"({a:null})", M("a", nil), nil}, {"({a:'1',b:true,c:1.5})", M("a", "1", "b", true, "c", 1.5), nil}, {"JSON.parse('{\"x\":{\"y\":null}}')", M("x", M("y", nil)), nil},
 		{"({k:a})", M("k", "v"), A("a", "v")}, {"({b:1,a:2})", M("a", 2, "b", 1), nil}, {"Object.create(null)", O, nil},
+		// the same container reachable twice (no cycle): a value like any other
+		{"var addr={city:'c'}; ({billing:addr, shipping:addr})", M("billing", M("city", "c"), "shipping", M("city", "c")), nil},
+		{"var row=[1,2]; [row,row]", A(A(1, 2), A(1, 2)), nil}, {"var o={k:[1]}; [o,{again:o},o.k]", A(M("k", A(1)), M("again", M("k", A(1))), A(1)), nil},
+		{"var e=[]; [e,e,{}]", A(A(), A(), M()), nil},
 		{"({a:undefined})", O, nil}, {"({a:0/0})", O, nil}, {"new Date(0)", O, nil}, {"(function(){})", O, nil}, {"new String('a')", O, nil}, {"new Number(1)", O, nil}, {"/x/", O, nil},
 		// arguments keep their declared kind
 		{"typeof a", "string", A("a", "1")}, {"typeof a", "number", A("a", int64(1))}, {"typeof a", "number", A("a", 1.5)}, {"typeof a", "boolean", A("a", true)},
